@@ -1695,6 +1695,11 @@ func parseActionList(masked string, original string, prevActions []*action, putA
 						continue
 					}
 				} else {
+					// The argument must have been masked up to the end of the spec,
+					// i.e. the spec ends with the closing character of the argument
+					if m := maskedStrings[specIndex]; len(m) != len(spec) || strings.TrimSpace(m[offset:]) != "" {
+						return nil, errors.New("unable to parse action argument: " + spec)
+					}
 					actionArg = spec[offset+1 : len(spec)-1]
 					actions = append(actions, &action{t: t, a: actionArg})
 				}
